@@ -221,6 +221,13 @@ impl WTClient {
         receipt: &AppointmentReceipt,
     ) {
         if let Some(tower) = self.towers.get_mut(&tower_id) {
+            // The receipt may already be there if the same appointment reaches the tower twice (e.g. a repeated
+            // commitment_revocation or a retry that was interrupted right after storing the receipt). Keep the first one.
+            if self.dbm.load_appointment_receipt(tower_id, locator).is_some() {
+                log::debug!("An appointment receipt for {locator} from {tower_id} is already stored");
+                return;
+            }
+
             // DISCUSS: It may be nice to independently compute the slots and compare
             tower.available_slots = available_slots;
 
@@ -241,10 +248,21 @@ impl WTClient {
         self.dbm.load_appointment_receipt(tower_id, locator)
     }
 
+    /// Checks whether the client already holds a record (accepted, pending or invalid) of an appointment for a given tower.
+    pub fn has_appointment(&self, tower_id: TowerId, locator: Locator) -> bool {
+        self.towers.get(&tower_id).map_or(false, |tower| {
+            tower.pending_appointments.contains(&locator)
+                || tower.invalid_appointments.contains(&locator)
+        }) || self.dbm.load_appointment_receipt(tower_id, locator).is_some()
+    }
+
     /// Adds a pending appointment to the tower record.
     pub fn add_pending_appointment(&mut self, tower_id: TowerId, appointment: &Appointment) {
         if let Some(tower) = self.towers.get_mut(&tower_id) {
-            tower.pending_appointments.insert(appointment.locator);
+            if !tower.pending_appointments.insert(appointment.locator) {
+                log::debug!("{} is already pending for {tower_id}", appointment.locator);
+                return;
+            }
 
             self.dbm
                 .store_pending_appointment(tower_id, appointment)
@@ -270,7 +288,10 @@ impl WTClient {
     /// Adds an invalid appointment to the tower record.
     pub fn add_invalid_appointment(&mut self, tower_id: TowerId, appointment: &Appointment) {
         if let Some(tower) = self.towers.get_mut(&tower_id) {
-            tower.invalid_appointments.insert(appointment.locator);
+            if !tower.invalid_appointments.insert(appointment.locator) {
+                log::debug!("{} is already invalid for {tower_id}", appointment.locator);
+                return;
+            }
 
             self.dbm
                 .store_invalid_appointment(tower_id, appointment)
